@@ -218,4 +218,80 @@ theorem needR_le_fuelOf (h : HModule) (i : HInst) (hi : i ∈ h.instances) (pc :
   rw [List.mem_flatMap]
   exact ⟨i, hi, List.mem_map.mpr ⟨pc, hpc, rfl⟩⟩
 
+
+/-! ### instance arrays -/
+
+theorem all2_getElem {α β} {R : α → β → Prop} : ∀ {l : List α} {m : List β}, All2 R l m → ∀ (j : Nat) (a : α), l[j]? = some a →
+    ∃ b, m[j]? = some b ∧ R a b
+  | _, _, .nil, j, a, h => by simp at h
+  | _, _, .cons hr t, j, a, h => by
+    cases j with
+    | zero => simp at h; subst h; exact ⟨_, by simp, hr⟩
+    | succ j => simp at h; simpa using all2_getElem t j a h
+
+theorem elemSConns_spec : ∀ (es : List (String × ArrayPass.AElem)) (cs : List (String × SConn)), elemSConns es = .ok cs →
+    All2 (fun pe pc => pc.1 = pe.1 ∧ pe.2.conn = some pc.2) es cs
+  | [], cs, h => by rw [elemSConns] at h; injection h with h; subst h; exact .nil
+  | (p, e) :: rest, cs, h => by
+    rw [elemSConns] at h
+    cases hc : e.conn with
+    | none => simp [hc] at h
+    | some c =>
+      cases hr : elemSConns rest with
+      | error x => simp [hc, hr] at h
+      | ok r =>
+        simp only [hc, hr] at h
+        injection h with h; subst h
+        exact .cons ⟨rfl, hc⟩ (elemSConns_spec rest r hr)
+
+theorem mkElems_spec (a : HArr) (nm : String → Nat → String) : ∀ (k : Nat) (els : List (List (String × ArrayPass.AElem))) (is : List HInst),
+    mkElems a nm k els = .ok is → ∀ (j : Nat) es, els[j]? = some es →
+      ∃ r, is[j]? = some r ∧ r.name = nm a.name (k + j) ∧ r.ref = a.ref ∧ r.params = a.params ∧ elemSConns es = .ok r.conns
+  | k, [], is, h, j, es, hj => by simp at hj
+  | k, e0 :: rest, is, h, j, es, hj => by
+    rw [mkElems] at h
+    cases hc : elemSConns e0 with
+    | error x => simp [hc] at h
+    | ok cs =>
+      cases hr : mkElems a nm (k + 1) rest with
+      | error x => simp [hc, hr] at h
+      | ok r =>
+        simp only [hc, hr] at h
+        injection h with h; subst h
+        cases j with
+        | zero => simp at hj; subst hj; exact ⟨⟨nm a.name k, a.ref, a.params, cs⟩, by simp, rfl, rfl, rfl, hc⟩
+        | succ j =>
+          simp at hj
+          obtain ⟨x, h1, h2, h3, h4, h5⟩ := mkElems_spec a nm (k + 1) rest r hr j es hj
+          exact ⟨x, by simpa using h1, by rw [h2]; congr 1; omega, h3, h4, h5⟩
+
+theorem flattenArrays_spec (ctx : PRef → Option (List (String × Nat))) (nm : String → Nat → String) :
+    ∀ (arrs : List HArr) (h h' : HModule), flattenArrays ctx nm arrs h = .ok h' →
+      h'.name = h.name ∧ h'.signals = h.signals ∧ h'.ports = h.ports ∧ (∀ i ∈ h.instances, i ∈ h'.instances) ∧
+      ∀ a ∈ arrs, ∃ els, expandArr ctx nm a = .ok els ∧ ∀ r ∈ els, r ∈ h'.instances
+  | [], h, h', hf => by
+    rw [flattenArrays] at hf; injection hf with hf; subst hf
+    exact ⟨rfl, rfl, rfl, fun _ hi => hi, fun _ ha => by cases ha⟩
+  | a :: rest, h, h', hf => by
+    rw [flattenArrays] at hf
+    cases he : expandArr ctx nm a with
+    | error x => simp [he] at hf
+    | ok els =>
+      simp only [he] at hf
+      obtain ⟨h1, h2, h3, h4, h5⟩ := flattenArrays_spec ctx nm rest _ h' hf
+      refine ⟨h1, h2, h3, fun i hi => h4 i (List.mem_append_left _ hi), ?_⟩
+      intro x hx
+      rcases List.mem_cons.mp hx with rfl | hx
+      · exact ⟨els, he, fun r hr => h4 r (List.mem_append_right _ hr)⟩
+      · exact h5 x hx
+
+theorem lookupP_map (p : String) : ∀ (ports : List (String × Nat)),
+    ArrayPass.lookupP p (ports.map fun pw => (pw.1, ArrayPass.Port.sig pw.2)) = (Pkg.lookup p ports).map ArrayPass.Port.sig
+  | [] => rfl
+  | (a, w) :: rest => by
+    simp only [List.map_cons, ArrayPass.lookupP, Pkg.lookup]
+    by_cases h : a = p
+    · simp [h]
+    · simp [h, lookupP_map p rest]
+
 end Hdl21.ModulePipe
